@@ -76,12 +76,22 @@ type Case struct {
 	// prof/transpiler.Plan*): translation #1, #2 (after all other cases), then one per soak goroutine that differs (or #1);
 	// each is the description of the whole processor chain: the in-process stages with their parameters and the SQL
 	Top []string `json:"top,omitempty"`
+	// profile cases: the selectors as the real parser delivered them (value unquoted) and the gin table of the context
+	ProfSels []ProfSel `json:"prof_sels,omitempty"`
+	ProfGin  string    `json:"prof_gin,omitempty"`
 	Err    string   `json:"err,omitempty"` // parse | plan
+}
+
+type ProfSel struct {
+	Name string `json:"name"`
+	Op   string `json:"op"`
+	Val  string `json:"val"` // hex
 }
 
 // a plan object of any of the three languages
 type plan struct {
-	p shared.SQLRequestPlanner
+	p    shared.SQLRequestPlanner
+	sels []ProfSel
 }
 
 func mkCtx(c *Case, w [2]int64, portion int) *shared.PlannerContext {
@@ -137,7 +147,7 @@ func build(c *Case) (pl *plan, kind string, err error) {
 				kind = "plan"
 				return
 			}
-			pl = &plan{sp}
+			pl = &plan{p: sp}
 		case "traceql":
 			var script *traceql_parser.TraceQLScript
 			script, err = traceql_parser.Parse(c.Query)
@@ -160,7 +170,7 @@ func build(c *Case) (pl *plan, kind string, err error) {
 				kind = "plan"
 				return
 			}
-			pl = &plan{sp}
+			pl = &plan{p: sp}
 		case "prof":
 			var script *prof_parser.Script
 			script, err = prof_parser.Parse(c.Query)
@@ -170,7 +180,18 @@ func build(c *Case) (pl *plan, kind string, err error) {
 			}
 			tid := &prof_shared.TypeId{Tp: "process_cpu", SampleType: "cpu", SampleUnit: "nanoseconds", PeriodType: "cpu", PeriodUnit: "nanoseconds"}
 			var sp shared.SQLRequestPlanner
+			var sels []ProfSel
+			for _, sl := range script.Selectors {
+				v, uerr := sl.Val.Unquote()
+				if uerr != nil {
+					kind, err = "parse", uerr
+					return
+				}
+				sels = append(sels, ProfSel{Name: sl.Name, Op: sl.Op, Val: hx.Hex(v)})
+			}
 			switch c.Mode {
+			case "selector": // the bare fingerprint selection every profile request starts with
+				sp = &prof_transpiler.StreamSelectorPlanner{Selectors: script.Selectors}
 			case "label_names":
 				sp, err = prof_transpiler.PlanLabelNames([]*prof_parser.Script{script})
 			case "label_values":
@@ -190,7 +211,7 @@ func build(c *Case) (pl *plan, kind string, err error) {
 				kind = "plan"
 				return
 			}
-			pl = &plan{sp}
+			pl = &plan{p: sp, sels: sels}
 		default:
 			kind, err = "plan", fmt.Errorf("unknown language %q", c.Lang)
 		}
@@ -309,7 +330,7 @@ func describe(c *Case, v reflect.Value, pc func() *shared.PlannerContext, seen m
 	v = exported(v)
 	if (v.Kind() == reflect.Interface || v.Kind() == reflect.Ptr) && !v.IsNil() && v.Type().Implements(sqlPlannerType) && v.CanInterface() {
 		if sp, ok := v.Interface().(shared.SQLRequestPlanner); ok && sp != nil {
-			b.WriteString("SQL{" + text(c, &plan{sp}, pc()) + "}")
+			b.WriteString("SQL{" + text(c, &plan{p: sp}, pc()) + "}")
 			return
 		}
 	}
@@ -442,11 +463,13 @@ func run(c *Case) {
 		c.Windows = [][2]int64{{c.Ctx.FromNs, c.Ctx.ToNs}}
 	}
 	c.Top = []string{runTop(c)}
-	_, kind, err := build(c)
+	c.ProfGin = mkCtx(c, c.Windows[0], 0).ProfilesSeriesGinTable
+	pl0, kind, err := build(c)
 	if err != nil {
 		c.Err = kind + ": " + err.Error()
 		return
 	}
+	c.ProfSels = pl0.sels
 	c.Fresh = runFresh(c)
 	c.Tail = runTail(c)
 	c.Reuse = runReuse(c)
@@ -716,7 +739,7 @@ func generate(seed int64, n int) []*Case {
 		default:
 			c.Lang = "prof"
 			c.Query = genProf(r)
-			c.Mode = []string{"label_names", "label_values", "merge_traces", "select_series", "merge_profiles", "analyze", "series"}[r.Intn(7)]
+			c.Mode = []string{"selector", "selector", "label_names", "label_values", "merge_traces", "select_series", "merge_profiles", "analyze", "series"}[r.Intn(9)]
 		}
 		k := 1 + r.Intn(5)
 		c.Windows = genWindows(r, k)
